@@ -1672,3 +1672,141 @@ pub fn header_size_stream(hlit: usize, hdist: usize, variant: u64) -> Option<(Ve
     let plain = tokens_to_plain(&[], &toks);
     Some((w.out, plain))
 }
+
+/// "boundary run" blocks: single dynamic blocks whose code lengths are exactly the optimal ones
+/// for the block's own symbol counts (all counts are powers of two, so every construction of an
+/// optimal code gives the same lengths) and in which the last literal/length symbols and ALL
+/// distance symbols share one length L. The greedy run-length coding of the header then has a
+/// repeat item (16) that starts in the literal/length part and ends in the distance part, the
+/// situation in which the code-length predictor's notion of "previous length" at the boundary
+/// matters. Layout: length symbols 257..257+m-1 (length L, 2^(D-L) uses each), end of block
+/// (length D), literals filling the rest of the code space, distance symbols 0..2^L-1 (c uses each).
+/// `variant` selects (L, D, c), the literal byte values, a stored prefix and the token order.
+/// Returns None when the variant does not exist.
+pub fn boundary_run_stream(variant: u64) -> Option<(Vec<u8>, Vec<u8>, String)> {
+    const SHAPES: [(u32, u32, u32); 10] =
+        [(2, 3, 1), (2, 4, 2), (3, 4, 1), (3, 5, 1), (3, 5, 2), (4, 5, 1), (4, 6, 1), (4, 7, 1), (3, 4, 2), (2, 3, 2)];
+    let shape = (variant % 10) as usize;
+    let sub = variant / 10;
+    let (l, d, c) = SHAPES[shape];
+    // m * 2^(D-L) = c * 2^L references
+    let refs = (c << l) as usize;
+    if (refs as u32) % (1 << (d - l)) != 0 {
+        return None;
+    }
+    let m = refs >> (d - l);
+    if m < 2 || m > 29 {
+        return None;
+    }
+    // code space in units of 2^-D: length symbols m * 2^(D-L), end of block 1, one literal of
+    // length D (its sibling), the rest as literals of distinct lengths (binary digits)
+    let full = 1u32 << d;
+    let used = (m as u32) * (1 << (d - l)) + 2;
+    if used > full {
+        return None;
+    }
+    let mut rest = full - used;
+    let mut lit_lengths: Vec<u8> = vec![d as u8];
+    let mut bit = 0;
+    while rest > 0 {
+        if rest & 1 != 0 {
+            // a digit of weight 2^bit units = one literal of length D - bit
+            lit_lengths.push((d - bit) as u8);
+        }
+        rest >>= 1;
+        bit += 1;
+    }
+    let mut mix = Mix::new(0xB0DA ^ sub.wrapping_mul(0x9E37_79B9_7F4A_7C15));
+    // literal byte values: ascending distinct; sometimes adjacent to 256 so that no zero run
+    // separates them from the end-of-block symbol
+    let mut values: Vec<u8> = vec![];
+    let high = sub % 3 == 1;
+    while values.len() < lit_lengths.len() {
+        let v = if high { 255 - values.len() as u8 } else { mix.u8() };
+        if !values.contains(&v) {
+            values.push(v);
+        }
+    }
+    for i in (1..lit_lengths.len()).rev() {
+        let j = mix.below(i + 1);
+        lit_lengths.swap(i, j);
+    }
+    let mut lit_len = vec![0u8; 288];
+    for (v, &ll) in values.iter().zip(lit_lengths.iter()) {
+        lit_len[*v as usize] = ll;
+    }
+    lit_len[256] = d as u8;
+    for k in 0..m {
+        lit_len[257 + k] = l as u8;
+    }
+    let mut dist_len = vec![0u8; 32];
+    for k in 0..(1usize << l) {
+        dist_len[k] = l as u8;
+    }
+    // tokens: every literal 2^(D-len) times, then the references
+    let stored_prefix = sub % 2 == 1 || l == 4;
+    let mut prefix: Vec<u8> = vec![];
+    if stored_prefix {
+        for _ in 0..300 {
+            prefix.push(mix.u8());
+        }
+    }
+    let mut toks: Vec<Tok> = vec![];
+    let mut lits: Vec<u8> = vec![];
+    for (v, &ll) in values.iter().zip(lit_lengths.iter()) {
+        for _ in 0..(1usize << (d - ll as u32)) {
+            lits.push(*v);
+        }
+    }
+    for i in (1..lits.len()).rev() {
+        let j = mix.below(i + 1);
+        lits.swap(i, j);
+    }
+    let mut plain = prefix.clone();
+    for &b in &lits {
+        toks.push(Tok::Lit(b));
+        plain.push(b);
+    }
+    // pair length symbols and distance symbols round-robin; distances ascending so that the
+    // history is long enough
+    let mut pairs: Vec<(usize, usize)> = vec![];
+    for r in 0..refs {
+        pairs.push((r % m, r / (c as usize)));
+    }
+    pairs.sort_by_key(|p| p.1);
+    for (ls, ds) in pairs {
+        let len = LEN_BASE[ls];
+        let base = DIST_BASE[ds] as usize;
+        let span = 1usize << DIST_EXTRA[ds];
+        let dist = base + mix.below(span);
+        let dist = dist.min(plain.len());
+        if dist < base || dist == 0 {
+            return None;
+        }
+        let st = plain.len() - dist;
+        for i in 0..len as usize {
+            let b = plain[st + i];
+            plain.push(b);
+        }
+        toks.push(Tok::Ref { len, dist: dist as u32, irregular: false });
+    }
+    let mut w = BitW::new();
+    if stored_prefix {
+        w.put(0, 1);
+        w.put(0, 2);
+        w.pad(0);
+        w.bytes(&(prefix.len() as u16).to_le_bytes());
+        w.bytes(&(!(prefix.len() as u16)).to_le_bytes());
+        w.bytes(&prefix);
+    }
+    w.put(1, 1);
+    w.put(2, 2);
+    let hlit = 257 + m;
+    let hdist = 1usize << l;
+    let mut seq: Vec<u8> = lit_len[..hlit].to_vec();
+    seq.extend_from_slice(&dist_len[..hdist]);
+    emit_header_from_lengths(&mut w, hlit, hdist, &seq, sub ^ 0x51ED);
+    emit_tokens(&mut w, &toks, &lit_len, &dist_len);
+    w.pad(0);
+    Some((w.out, plain, format!("boundary-run L={} D={} c={} m={} prefix={} high-literals={}", l, d, c, m, stored_prefix, high)))
+}
